@@ -28,6 +28,7 @@ type Builder struct {
 	Tame     bool // small friendly values (used when Validate keeps rejecting)
 	MaxDepth int
 	UniqueID string // when set, every string leaf embeds it (isolation checks)
+	NonEmpty bool   // core mode: arrays have at least one item (parameters)
 }
 
 var (
@@ -379,6 +380,9 @@ func (b *Builder) Value(t reflect.Type, depth int) reflect.Value {
 			if b.Tame {
 				n = 1 + r.Intn(2)
 			}
+			if !b.Hostile && n == 0 && b.NonEmpty {
+				n = 1 // core domain of parameters: an empty array has no serialization of its own
+			}
 		}
 		s := reflect.MakeSlice(t, 0, n)
 		for i := 0; i < n; i++ {
@@ -463,6 +467,16 @@ func (b *Builder) Value(t reflect.Type, depth int) reflect.Value {
 				continue // patternProperties: keys must match a pattern the Go type does not reveal
 			}
 			v.Field(i).Set(b.Value(f.Type, depth+1))
+		}
+		if b.NonEmpty && !b.Hostile && depth > 0 && t.NumField() > 0 {
+			// core domain of parameters: an object without members has no serialization of its own
+			for try := 0; try < 8 && emptyObject(snap(v, 0)); try++ {
+				for i := 0; i < t.NumField(); i++ {
+					if t.Field(i).IsExported() {
+						v.Field(i).Set(b.Value(t.Field(i).Type, depth+1))
+					}
+				}
+			}
 		}
 		return v
 	}
